@@ -551,12 +551,29 @@ def scen_failed_start(env, kind):
         if kind == 'start':
             if not order:
                 BadStart('bad')
+        elif kind == 'task-fails-at-once':
+            # a task created by start() fails on its very first step: the simulation is aborted at the first
+            # await after the start() calls, before any block is initialised or restored
+            def boom():
+                raise RuntimeError("poll function failed")
+            edzed.ValuePoll('poll', func=boom, interval=1.0)
+        elif kind == 'abort-at-once':
+            pass
         else:
             edzed.Not('inv').connect('no_such_block')
         out = {}
 
         async def main():
             task = asyncio.create_task(circ.run_forever())
+            if kind == 'abort-at-once':
+                await asyncio.sleep(0)       # the simulation task runs up to its first await (start() calls done)
+                if env.choose(2, 'how'):
+                    circ.abort(RuntimeError('aborted at once'))
+                else:
+                    try:
+                        await circ.shutdown()
+                    except Exception:
+                        pass
             try:
                 await circ.wait_init()
                 out['ok'] = True
@@ -675,7 +692,9 @@ def scen_timeblocks(env, kind, crash, ek):
 def shards(tier):
     nev = BOUNDS[tier]['events']
     out = [{'name': 'failed start: start() raises', 'scenario': 'scen_failed_start', 'params': {'kind': 'start'}},
-           {'name': 'failed start: unresolved name', 'scenario': 'scen_failed_start', 'params': {'kind': 'resolve'}}]
+           {'name': 'failed start: unresolved name', 'scenario': 'scen_failed_start', 'params': {'kind': 'resolve'}},
+           {'name': 'failed start: task fails at once', 'scenario': 'scen_failed_start', 'params': {'kind': 'task-fails-at-once'}},
+           {'name': 'failed start: aborted at the first await', 'scenario': 'scen_failed_start', 'params': {'kind': 'abort-at-once'}}]
     for kind in ('input', 'counter'):
         for sync in (True, False):
             for si in ([-1] + list(range(nev + 1)) if sync else [-1]):
